@@ -30,14 +30,23 @@ from onnxscript.onnx_types import TensorType
 )
 def quantized_decomposed_quantize_per_tensor(
     input: TensorType,
-    scale: float,
-    zero_point: int,
-    quant_min: int,
-    quant_max: int,
+    scale: TensorType,
+    zero_point: TensorType,
+    quant_min: TensorType,
+    quant_max: TensorType,
     dtype: int,
 ) -> TensorType:
+    # scale, zero_point (and quant_min, quant_max) are Python numbers for the default
+    # overload and tensors for the .tensor (.tensor2) overloads
     # TODO(justinchuby): Use dtype when we use opset 21
-    return op.QuantizeLinear(input, scale, common.constant(zero_point, dtype=dtype))
+    if isinstance(scale, (int, float)):
+        return op.QuantizeLinear(input, scale, common.constant(zero_point, dtype=dtype))
+    # ONNX QuantizeLinear requires the scale to share the input element type, the
+    # zero_point to share the (quantized) output element type and both to be scalars
+    # (PyTorch takes any one-element tensor)
+    scale = op.Squeeze(op.CastLike(scale, input))
+    zero_point = op.Squeeze(op.Cast(zero_point, to=dtype))
+    return op.QuantizeLinear(input, scale, zero_point)
 
 
 @torch_op(
@@ -50,15 +59,27 @@ def quantized_decomposed_quantize_per_tensor(
 )
 def quantized_decomposed_dequantize_per_tensor(
     input: TensorType,
-    scale: float,
-    zero_point: int,
-    quant_min: int,
-    quant_max: int,
+    scale: TensorType,
+    zero_point: TensorType,
+    quant_min: TensorType,
+    quant_max: TensorType,
     dtype: int,
     out_dtype: int = -1,
 ) -> TensorType:
+    # scale, zero_point (and quant_min, quant_max) are Python numbers for the default
+    # overload and tensors for the .tensor (.tensor2) overloads
     # TODO(justinchuby): Use dtype when we use opset 21
-    dequantized = op.DequantizeLinear(input, scale, common.constant(zero_point, dtype=dtype))
+    if isinstance(scale, (int, float)):
+        dequantized = op.DequantizeLinear(
+            input, scale, common.constant(zero_point, dtype=dtype)
+        )
+    else:
+        # ONNX DequantizeLinear requires a floating point scale, a zero_point that shares
+        # the (quantized) input element type and both to be scalars (PyTorch takes any
+        # one-element tensor)
+        scale = op.Squeeze(op.Cast(scale, to=ir.DataType.FLOAT))
+        zero_point = op.Squeeze(op.Cast(zero_point, to=dtype))
+        dequantized = op.DequantizeLinear(input, scale, zero_point)
     if out_dtype in (-1, None):
         # out_dtype can be None as well
         return dequantized
